@@ -79,6 +79,22 @@ def insertMatcher (x : Matcher × List Int) : List (Matcher × List Int) → Lis
 def sortMatchers (l : List (Matcher × List Int)) : List (Matcher × List Int) :=
   l.foldr insertMatcher []
 
+/-- `PrometheusBuilder::add_global_label` called once per element, in order: `IndexMap::insert` — a repeated
+    name keeps its first position and takes the last value -/
+def buildGlobals (raw : List (Str × Str)) : List (Str × Str) :=
+  raw.foldl (fun m kv => imInsert m kv.1 kv.2) []
+
+/-- `HashMap::insert` of `set_buckets_for_metric` (the matcher is sanitised by the caller): the same matcher given
+    again replaces the earlier bounds -/
+def insertOverride (m : List (Matcher × List Int)) (x : Matcher × List Int) : List (Matcher × List Int) :=
+  match m with
+  | [] => [x]
+  | y :: ys => if y.1 = x.1 then x :: ys else y :: insertOverride ys x
+
+/-- `PrometheusBuilder::set_buckets_for_metric` called once per element, in order, then `DistributionBuilder::new` -/
+def buildOverrides (raw : List (Matcher × List Int)) : List (Matcher × List Int) :=
+  sortMatchers ((raw.map (fun mb => (mb.1.sanitized, mb.2))).foldl insertOverride [])
+
 structure Cfg where
   unitSuffix : Bool
   globals : List (Str × Str)
@@ -144,6 +160,7 @@ inductive Op
   | gset (k : MKey) (v : Val)
   | gadd (k : MKey) (n : Int)          -- increment by n/1024 (decrement = negative)
   | hrec (k : MKey) (v : Int)
+  | hrecMany (k : MKey) (v : Int) (n : Nat)   -- `Histogram::record_many(v, n)` (default `HistogramFn::record_many`: n × `record`)
   | upkeep
   deriving Repr
 
@@ -170,6 +187,7 @@ def step (s : St) : Op → St
   | .gset k v => { s with gauges := upsert s.gauges k (.dy 0) (fun _ => v) }
   | .gadd k n => { s with gauges := upsert s.gauges k (.dy 0) (fun g => g.add n) }
   | .hrec k v => { s with hists := upsert s.hists k [] (fun p => p ++ [v]) }
+  | .hrecMany k v n => { s with hists := upsert s.hists k [] (fun p => p ++ List.replicate n v) }
   | .upkeep => drain s
 
 /-! ### rendering -/
